@@ -5,6 +5,7 @@ TAGS = ("C08",)
 CONTRACT_MODULES = ALL_CONTRACTS
 FUNCTIONS = [S + "processLinearMoves", S + "isAnyPointExcluded", S + "isPointExcluded", S + "exitExcludedRegion"] + REGION_FUNCS + \
     AXIS_FUNCS[1:] + [H + "_handle_" + c for c in ("G0", "G2", "G20", "G21", "G28", "G90", "G91", "G92")]
+SELFCHECK = [AX + "logicalToNative", AX + "nativeToLogical", AX + "setLogicalOffsetPosition", H + "_handle_G20", H + "_handle_G91"]
 ASSUMPTIONS = ["A1", "A2", "A4", "INDUCTION"]
 EXTRA_ASSUMPTIONS = ["'the same physical tool path in another encoding' is by definition the same trajectory of the reference printer; "
                      "the corollary (same decisions, same episodes, same end positions) is drawn from the four lemma groups below and is not itself mechanised"]
